@@ -161,7 +161,7 @@ registry.register("C20", {
     "axioms_allowed": [],
     "classify": classify,
     "components": [
-        {"name": "dcsim", "gen": gen_dcsim, "fixed": fixed_dcsim, "quick": 120, "thorough": 6000, "model": False,
+        {"name": "dcsim", "gen": gen_dcsim, "fixed": fixed_dcsim, "quick": 100, "thorough": 6000, "model": False,
          "valid": valid_dcsim, "nontrivial": nontrivial_dcsim, "histogram": histogram_dcsim},
     ],
     "rule": "dcsim: each case is one request/response exchange over real s2n_quic_dc::stream::testing::{Client, Server} "
